@@ -146,3 +146,22 @@ Proof. vm_compute. split; reflexivity. Qed.
 Example C03_ex_body_replicated :
   map (option_map s_body) (sent_seq [ex_plain; ex_post] ex_req_body 1) = [Some "BODY"; Some "BODY"].
 Proof. vm_compute. reflexivity. Qed.
+
+(* granularity: the value slices of the client's header entries are an object of their own
+   (FVals), shared by shallow clones and by every header map built from them.  A pipeline
+   that wrote into them in place (instead of assigning a fresh slice, as the GraphQL
+   middleware does) would conflict with its sibling's http proxy, which reads them: *)
+Example C03_ex_value_slice_write_is_a_conflict :
+  race_free obj_eqb [Fork [Acc (Wr (orig FVals) (VMap [("Content-Length", ["117"])]))];
+                     Fork (map Acc (http_stage (init_pst ex_req)))] = false.
+Proof. vm_compute. reflexivity. Qed.
+(* on the model of the code as it is every backend's pipeline only READS them (or owns a
+   CloneRequest copy) *)
+Example C03_ex_two_graphql_post_siblings :
+  let g := fun p body => {| b_method := "GET"; b_hdrs := []; b_qs := []; b_cc := 1; b_host := "http://h"; b_path := p;
+                            b_gql := Some {| g_get := false; g_kind := GQuery; g_out := Some (body, []) |} |} in
+  let q := {| q_method := "GET"; q_hdr := [("Content-Length", ["0"])]; q_qry := []; q_par := []; q_body := None |} in
+  race_free_b [g "/a" "short"; g "/b" "a longer body"] q = true /\
+  map (option_map s_hdr) (sent_seq [g "/a" "short"; g "/b" "a longer body"] q 0) =
+    [Some [("Content-Type", ["application/json"]); ("Content-Length", ["5"])]].
+Proof. vm_compute. split; reflexivity. Qed.
